@@ -51,7 +51,7 @@ def run(ctx):
     for fi, f in enumerate(files):
         for sd in range(1, (7 if ctx.quick() else 40)):
             seed = rng.randrange(1 << 20) * 8 + sd          # seed%4 -> threads, (seed/4)%2 -> timeout
-            mode = rng.choice([0, 2, 3, 3, 1]) if len(f) < 8000 else rng.choice([0, 3])
+            mode = rng.choice([0, 2, 3, 3, 1, 7]) if len(f) < 8000 else rng.choice([0, 3, 7])
             ml = rng.choice([0, 0, 0, 1 << 20, 200000, 1])
             flags = LZMA_CONCATENATED | rng.choice([0, 0, 0x20])      # FAIL_FAST sometimes
             lines.append('dec 1 %d %d %d %d %s' % (flags, mode, seed, ml, f.hex())); meta.append((fi, flags, seed, mode, ml))
@@ -60,6 +60,35 @@ def run(ctx):
             seed = rng.randrange(1 << 20) * 8 + sd
             mode = rng.choice([0, 2, 3, 3]) if len(f) < 8000 else rng.choice([0, 3])
             lines.append('dec 1 %d %d %d 0 %s' % (LZMA_CONCATENATED, mode + 16, seed, f.hex())); meta.append((fi, LZMA_CONCATENATED, seed, mode + 16, 0))
+    # memory limits: Blocks with growing dictionaries and a limit that a later Block exceeds; the threaded decoder (both of its
+    # limits set to it) must deliver what the single-threaded decoder with the same limit delivers, and the same status
+    import lzma as _lz
+    mfiles = []
+    for _ in range(3 if ctx.quick() else 30):
+        dicts = rng.choice([[4096, 4096, 1 << 20, 4096], [65536, 1 << 22], [4096, 1 << 16, 1 << 20, 1 << 22], [1 << 20, 4096, 4096]])
+        spec = []
+        for dsz in dicts:
+            data = xzgen.gen_data(rng, rng.randrange(300, 6000))
+            chain = [{'id': 'lzma2', 'dict_size': dsz, 'lc': 3, 'lp': 0, 'pb': 2, 'mode': _lz.MODE_FAST, 'nice_len': 32, 'mf': _lz.MF_HC4}]
+            spec.append((data, chain, {'comp_present': True, 'uncomp_present': True}))
+        mf = xzgen.stream(spec, rng.choice([1, 4]), rng)
+        for ml in (1, 30000, 100000, 300000, 1500000, 3000000, 6000000):
+            mfiles.append((mf, ml))
+    # a long first Block (a worker is busy with it for a while) followed by a Block that exceeds the limit
+    for _ in range(1 if ctx.quick() else 6):
+        big = (xzgen.gen_runs(rng, 3000) * 700)[:rng.choice([1 << 21, 3 << 20])]
+        spec = [(big, [{'id': 'lzma2', 'dict_size': 65536, 'lc': 3, 'lp': 0, 'pb': 2, 'mode': _lz.MODE_FAST, 'nice_len': 32, 'mf': _lz.MF_HC4}], {'comp_present': True, 'uncomp_present': True}),
+                (xzgen.gen_data(rng, 500), [{'id': 'lzma2', 'dict_size': 1 << 24, 'lc': 3, 'lp': 0, 'pb': 2, 'mode': _lz.MODE_FAST, 'nice_len': 32, 'mf': _lz.MF_HC4}], {'comp_present': True, 'uncomp_present': True}),
+                (xzgen.gen_data(rng, 500), [{'id': 'lzma2', 'dict_size': 4096, 'lc': 3, 'lp': 0, 'pb': 2, 'mode': _lz.MODE_FAST, 'nice_len': 32, 'mf': _lz.MF_HC4}], {'comp_present': True, 'uncomp_present': True})]
+        mf = xzgen.stream(spec, 1, rng)
+        mfiles.append((mf, 12 << 20)); mfiles.append((mf, 64 << 20))
+    mref_l = ['dec 0 %d 0 0 %d %s' % (LZMA_CONCATENATED, ml, mf.hex()) for mf, ml in mfiles]
+    mref, mrf = run_lines(st, mref_l)
+    mbase = len(lines)
+    for (mf, ml) in mfiles:
+        for sd in range(1, (5 if ctx.quick() else 16)):
+            seed = rng.randrange(1 << 20) * 8 + sd
+            lines.append('dec 1 %d %d %d %d %s' % (LZMA_CONCATENATED, rng.choice([0, 3, 3, 7, 7, 1]) if len(mf) < 30000 else rng.choice([0, 3, 7, 7]), seed, ml, mf.hex())); meta.append(('ml', 0, seed, 0, ml))
     outs = [None] * len(lines); fails = []
     # several scheduler seeds: one process group per seed
     for ss in range(1, 5):
@@ -80,14 +109,24 @@ def run(ctx):
     n_eval += len(elines)
     for x in ef: viol.append(dict(why='threaded decoder freed early (lzma_end while workers run): crash / sanitizer report, rc %s' % x[2], line=(x[0] or '')[:300000], stderr=x[1][-2500:]))
     for x in fails: viol.append(dict(why='threaded decoder: crash / assertion / watchdog (deadlock or lost wake-up), rc %s' % x[2], line=(x[0] or '')[:300000], stderr=x[1][-1500:]))
-    for (fi, flags, seed, mode, ml), l, o in zip(meta, lines, outs):
+    for li, ((fi, flags, seed, mode, ml), l, o) in enumerate(zip(meta, lines, outs)):
+        if fi == 'ml':
+            r0 = mref[(li - mbase) // (4 if ctx.quick() else 15)]
+            if o is None or r0 is None: continue
+            n_eval += 1; t = o.split(); t0 = r0.split(); distinct.add(('ml', seed % 4, t[0], ml))
+            if t[0] == '94': viol.append(dict(why='threads=%d memlimit=%d: LZMA_BUF_ERROR although unconsumed input and output space were both available (the single-threaded decoder: status %s after %d bytes)' % (1 + seed % 4, ml, t0[0], len(t0[4]) // 2 if t0[4] != '-' else 0), line=l[:300000]))
+            elif t[0] == '98': viol.append(dict(why='threads=%d memlimit=%d: no progress and no LZMA_BUF_ERROR on 150 consecutive calls' % (1 + seed % 4, ml), line=l[:300000]))
+            elif (t[0], t[4]) != (t0[0], t0[4]):
+                viol.append(dict(why='threads=%d timeout=%s memlimit=%d (Blocks with growing dictionaries): status %s after %d output bytes, the single-threaded decoder with the same limit gives %s after %d bytes' % (1 + seed % 4, 'no' if (seed // 4) % 2 else '3ms', ml, t[0], len(t[4]) // 2 if t[4] != '-' else 0, t0[0], len(t0[4]) // 2 if t0[4] != '-' else 0), line=l[:300000]))
+            continue
         if o is None or ref[fi] is None: continue
         n_eval += 1
         t = o.split(); ret = int(t[0]); out = bytes.fromhex(t[4]) if t[4] != '-' else b''
         rret, rtin, rtout, rcalls, rout = ref[fi]
         distinct.add((fi % 4, seed % 4, mode, ret, bool(flags & 0x20), ml))
         why = None
-        if ret == 98: why = 'no progress and no LZMA_BUF_ERROR on 150 consecutive calls (single-threaded decoder: %d)' % rret
+        if ret == 94: why = 'LZMA_BUF_ERROR although unconsumed input and output space were both available (single-threaded decoder: %d)' % rret
+        elif ret == 98: why = 'no progress and no LZMA_BUF_ERROR on 150 consecutive calls (single-threaded decoder: %d)' % rret
         elif ret == 6 and ml: continue     # memlimit_stop reached: allowed
         elif flags & 0x20:
             if not rout.startswith(out): why = 'FAIL_FAST: output is not a prefix of the single-threaded output'
